@@ -47,6 +47,7 @@ package jpegmeta
 //@   ghost f int
 //@   ghost n int
 //@   scenario plain icc2 icc-mismatch icc-missing
+//@   thorough_scenario icc2-reversed
 //@   ghost l1 int
 //@   ghost l2 int
 //@   ghost s2 int
@@ -86,10 +87,21 @@ package jpegmeta
 //@   requires [C06] case=icc-missing frame-then-scan: u8(r, s2) == 0xFF && u8(r, s2+1) == 0xC0 && be16(r, s2+2) >= 8 && s3 == s2 + 2 + int(be16(r, s2+2)) && r.len >= s3 + 4 && u8(r, s3) == 0xFF && u8(r, s3+1) == 0xDA && be16(r, s3+2) >= 2 && r.len >= s3 + 2 + int(be16(r, s3+2))
 //@   loop 1 invariant [C06] case=icc-missing position: 0 <= iter && iter <= 2 && !segReader.inEntropyCodedData && md != nil && md.iccProfileData == nil && md.iccProfileErr == nil && (iter == 0 ==> r.pos == 2 && iccProfileChunks == nil && iccProfileChunksExtracted == 0 && !metadataExtracted) && (iter == 1 ==> r.pos == s2 && !metadataExtracted) && (iter == 2 ==> r.pos == s3 && metadataExtracted && md.PixelHeight == uint32(be16(r, s2+5)) && md.PixelWidth == uint32(be16(r, s2+7)))
 //@   loop 1 invariant [C06] case=icc-missing one-collected: iter >= 1 ==> len(iccProfileChunks) == 2 && iccProfileChunksExtracted == 1
+//@   requires [C06] case=icc2-reversed soi: r.len >= 2 && u8(r, 0) == 0xFF && u8(r, 1) == 0xD8
+//@   requires [C06] case=icc2-reversed layout: l1 == int(be16(r, 4)) && s2 == 4 + l1 && l2 == int(be16(r, s2+2)) && s3 == s2 + 2 + l2
+//@   requires [C06] case=icc2-reversed first-segment-is-chunk-two: r.len >= s2 + 4 && u8(r, 2) == 0xFF && u8(r, 3) == 0xE2 && l1 >= 16 && be32(r, 6) == 0x4943435F && be32(r, 10) == 0x50524F46 && be32(r, 14) == 0x494C4500 && u8(r, 18) == 2 && u8(r, 19) == 2
+//@   requires [C06] case=icc2-reversed second-segment-is-chunk-one: r.len >= s3 + 4 && u8(r, s2) == 0xFF && u8(r, s2+1) == 0xE2 && l2 >= 16 && be32(r, s2+4) == 0x4943435F && be32(r, s2+8) == 0x50524F46 && be32(r, s2+12) == 0x494C4500 && u8(r, s2+16) == 1 && u8(r, s2+17) == 2
+//@   requires [C06] case=icc2-reversed frame: u8(r, s3) == 0xFF && u8(r, s3+1) == 0xC0 && be16(r, s3+2) >= 8 && r.len >= s3 + 2 + int(be16(r, s3+2))
+//@   loop 1 invariant [C06] case=icc2-reversed position: 0 <= iter && iter <= 2 && !segReader.inEntropyCodedData && !metadataExtracted && md != nil && md.iccProfileData == nil && md.iccProfileErr == nil && (iter == 0 ==> r.pos == 2 && iccProfileChunks == nil && iccProfileChunksExtracted == 0) && (iter == 1 ==> r.pos == s2) && (iter == 2 ==> r.pos == s3)
+//@   loop 1 invariant [C06] case=icc2-reversed second-slot-first: iter >= 1 ==> len(iccProfileChunks) == 2 && iccProfileChunksExtracted == iter && iccProfileChunks[1] != nil && len(iccProfileChunks[1]) == l1 - 16 && (forall j int :: 0 <= j && j < l1 - 16 ==> iccProfileChunks[1][j] == u8(r, 20 + j))
+//@   loop 1 invariant [C06] case=icc2-reversed first-slot-pending: iter == 1 ==> iccProfileChunks[0] == nil
+//@   loop 1 invariant [C06] case=icc2-reversed first-slot-collected: iter == 2 ==> iccProfileChunks[0] != nil && len(iccProfileChunks[0]) == l2 - 16 && (forall j int :: 0 <= j && j < l2 - 16 ==> iccProfileChunks[0][j] == u8(r, s2 + 18 + j))
 //@   loop 1 decreases r.len - r.pos
 //@   loop 3 invariant [C06,C09] concatenating: 0 <= rangeindex + 1 && rangeindex < len(iccProfileChunks) && (rangeindex == -1 ==> neverwritten(iccProfileData))
 //@   loop 3 invariant [C06] case=icc2 concatenated: -1 <= rangeindex && rangeindex <= 1 && (rangeindex == -1 ==> buf_len(iccProfileData) == 0) && (rangeindex == 0 ==> buf_len(iccProfileData) == l1 - 16 && (forall j int :: 0 <= j && j < l1 - 16 ==> buf_at(iccProfileData, j) == u8(r, 20 + j)))
 //@   loop 3 invariant [C06] case=icc2 concatenated-both: rangeindex == 1 ==> buf_len(iccProfileData) == l1 + l2 - 32 && (forall j int :: 0 <= j && j < l1 - 16 ==> buf_at(iccProfileData, j) == u8(r, 20 + j)) && (forall j int :: 0 <= j && j < l2 - 16 ==> buf_at(iccProfileData, l1 - 16 + j) == u8(r, s2 + 18 + j))
+//@   loop 3 invariant [C06] case=icc2-reversed concatenated: -1 <= rangeindex && rangeindex <= 1 && (rangeindex == -1 ==> buf_len(iccProfileData) == 0) && (rangeindex == 0 ==> buf_len(iccProfileData) == l2 - 16 && (forall j int :: 0 <= j && j < l2 - 16 ==> buf_at(iccProfileData, j) == u8(r, s2 + 18 + j)))
+//@   loop 3 invariant [C06] case=icc2-reversed concatenated-both: rangeindex == 1 ==> buf_len(iccProfileData) == l1 + l2 - 32 && (forall j int :: 0 <= j && j < l2 - 16 ==> buf_at(iccProfileData, j) == u8(r, s2 + 18 + j)) && (forall j int :: 0 <= j && j < l1 - 16 ==> buf_at(iccProfileData, l2 - 16 + j) == u8(r, 20 + j))
 //@   loop 3 decreases len(iccProfileChunks) - rangeindex
 //@   ensures [C05,C08] case=plain jpeg-dimensions: err == nil && md != nil && md.BitsPerComponent == uint32(u8(r, sg(f)+4)) && md.PixelHeight == uint32(be16(r, sg(f)+5)) && md.PixelWidth == uint32(be16(r, sg(f)+7)) && md.Format == "JPEG"
 //@   ensures [C06] case=plain no-profile: md != nil && md.iccProfileData == nil && md.iccProfileErr == nil
@@ -98,4 +110,5 @@ package jpegmeta
 //@   ensures [C05] case=icc2 dimensions-with-profile: err == nil && md != nil && md.PixelHeight == uint32(be16(r, s3+5)) && md.PixelWidth == uint32(be16(r, s3+7))
 //@   ensures [C06] case=icc-mismatch inconsistent-totals-are-an-error: err == nil && md != nil && md.iccProfileData == nil && md.iccProfileErr != nil && md.PixelHeight == uint32(be16(r, s3+5)) && md.PixelWidth == uint32(be16(r, s3+7))
 //@   ensures [C06] case=icc-missing missing-chunk-is-an-error: err == nil && md != nil && md.iccProfileData == nil && md.iccProfileErr != nil && md.PixelHeight == uint32(be16(r, s2+5)) && md.PixelWidth == uint32(be16(r, s2+7))
+//@   ensures [C06] case=icc2-reversed profile-is-chunks-by-number: err == nil && md != nil && md.iccProfileErr == nil && len(md.iccProfileData) == l1 + l2 - 32 && (forall j int :: 0 <= j && j < l2 - 16 ==> md.iccProfileData[j] == u8(r, s2 + 18 + j)) && (forall j int :: 0 <= j && j < l1 - 16 ==> md.iccProfileData[l2 - 16 + j] == u8(r, 20 + j))
 //@   ensures [C07,C09] returns: true
